@@ -2,7 +2,9 @@
 
     interpret(prog, data) -> str                  raises RefError (the program must fail; .kind = error family),
                                                   Ambiguous / Budget / Unsupported (all subclasses of Declined)
-    interpret_ex(prog, data) -> Result            .kind in {"ok", "error", "declined"}, .value, .labels, .why
+    interpret_ex(prog, data, guard=True) -> Result   .kind in {"ok", "error", "declined"}, .value, .labels, .why
+                                                  guard=False switches the first declined region below off (used to
+                                                  replay known finding F38 and as a resource probe)
 
 Written from the template documentation (docs/templates.rst: "Assignments", "Scoping Behavior", "For",
 "Macros", "Call", "With Statement", "Block Assignments"), not from jinja2's compiler:
@@ -24,7 +26,7 @@ does not define, see DESIGN.md section 3.2 "Ambiguity guard":
   * a macro default that reads a later, not yet bound parameter;
   * a call block invoking a macro that mentions ``caller`` only inside a nested macro;
   * printing a container that holds an undefined value (its repr is not documented);
-  * step / recursion budget exceeded (Budget), ``autoescape`` blocks (Unsupported).
+  * step / recursion / value-size budget exceeded (Budget), ``autoescape`` blocks (Unsupported).
 """
 from vt.gen import stmt as G
 
